@@ -1423,6 +1423,12 @@ class Macro:
             elif tok.token == "#":
                 if isinstance(self, MacroFunction):
                     self.has_strcat = True
+                    # The operand of # is used as written: it does not
+                    # make the argument need expansion.
+                    if idx + 1 < len(self.replacement):
+                        res_tokens.append(tok)
+                        idx += 1
+                        tok = self.replacement[idx]
             elif isinstance(tok, Identifier):
                 arg_idx = self.which_arg(tok.token)
                 if arg_idx != -1:
